@@ -382,7 +382,7 @@ func tail(s []string, n int) []string {
 func c10UnusableStore(r *hx.Run) {
 	blocker := filepath.Join(r.Scratch, "c10-regular-file")
 	os.WriteFile(blocker, []byte("x"), 0644)
-	dead := hx.FreePorts(1)[0]
+	dead := hx.DeadPort()
 	for ci, storeURL := range []string{"badger://" + filepath.Join(blocker, "sub", "dir"), fmt.Sprintf("redis://127.0.0.1:%d/?timeout=1s", dead)} {
 		kind := []string{"badger_directory_cannot_be_created", "redis_nobody_listening"}[ci]
 		w := newSimpleWorld(r, hx.SimpleCfg{CacheName: fmt.Sprintf("c10u%d", ci), CacheSize: 16, HitForPass: "3s", Store: storeURL}, 1, true)
